@@ -321,6 +321,26 @@ def _inputs_of(func, expression, cell_aliases):
         for target in targets:
             for name in _names_in(target):
                 definitions.setdefault(name, []).append(value)
+    # control dependence (round 11): a value assigned under ``if test:`` depends on what the test reads - a memo whose
+    # value is chosen by ``if self._dialect.is_keyword(name)`` depends on the dialect although no assignment mentions it
+    def controlled(statements, tests):
+        for statement in statements:
+            if isinstance(statement, (ast.FunctionDef, ast.AsyncFunctionDef, ast.ClassDef)):
+                continue
+            if isinstance(statement, (ast.Assign, ast.AugAssign)) and tests:
+                for target in (statement.targets if isinstance(statement, ast.Assign) else [statement.target]):
+                    for name in _names_in(target):
+                        definitions.setdefault(name, []).extend(tests)
+            if isinstance(statement, (ast.If, ast.While)):
+                controlled(statement.body, tests + [statement.test])
+                controlled(statement.orelse, tests + [statement.test])
+            else:
+                for field in ("body", "orelse", "finalbody"):
+                    controlled(getattr(statement, field, []) or [], tests)
+                for handler in getattr(statement, "handlers", []) or []:
+                    controlled(handler.body, tests)
+
+    controlled(func.node.body, [])
     local, _ = _local_stores(func.node)
     params = set()
     arguments = func.node.args
